@@ -798,9 +798,13 @@ fn relations(r: &mut Rng, model: &Model, bin: &str, work: &str, uid: &str) -> Op
             let m = r.range(7, 9);
             let nn = r.range(2, 8) as usize;
             let mut recs = seqs(r, nn, m as usize + 4, 150, false);
-            // many copies of the same reads: all workers meet the same minimisers at the same time
-            let base = recs.clone();
-            for _ in 0..60 { recs.extend(base.iter().cloned()); }
+            // groups of identical reads: all workers meet the same minimisers at the same time
+            recs.clear();
+            for _ in 0..100 {
+                let l = r.range(120, 200) as usize;
+                let one = gen::clean_seq(r, l, gen::Flavor::Uniform);
+                for _ in 0..16 { recs.push(one.clone()); }
+            }
             let w = if r.chance(1, 2) { 0 } else { m + 5 };
             let p = r.pick(&["s2m", "m2s"]).to_string();
             let base = CliCase { sub: Sub::Min { m, w, preset: p, threads: 1 }, recs, container: "fa".into() };
